@@ -201,12 +201,15 @@ pub fn walk(sink: &mut Sink, seed: u64, run_id: u64, setup: Setup, opts: &WalkOp
             }
             // ---------------------------------------------------------------- operator returns a batch
             63..=70 => {
-                let subs: Vec<Value> = v.batches().into_iter().filter(|b| b["status"] == "submitted").collect();
+                // mostly a Submitted batch; now and then any batch (a second delivery to a Received one,
+                // a delivery to the pending one) - those must be refused
+                let any = rng.gen_range(0..8) == 0;
+                let subs: Vec<Value> = v.batches().into_iter().filter(|b| any || b["status"] == "submitted").collect();
                 if subs.is_empty() {
                     None
                 } else {
                     let b = subs.choose(&mut rng).unwrap();
-                    let exp = ju(b, "expected") as u64;
+                    let exp = if b["status"] == "submitted" { ju(b, "expected") as u64 } else { rng.gen_range(1..50) };
                     let amt = if opts.honest {
                         exp
                     } else {
